@@ -989,6 +989,130 @@ fn step(c: &mut Case, pf: &Profile)
     else { c.cstate(h); }
 }
 
+
+// ------------------------------------------------------------------------------------------------
+// liveness probes: pointer-valued parameters are read at execution time.
+// The twin of the histories above holds `Parameter::FFIRef` to the same doubles, so a gate that froze its parameter
+// would be frozen in the twin as well.  These probes use an INDEPENDENT reference: a Rust circuit rebuilt with the
+// values the doubles hold at each execution as direct parameters.  Every probe circuit is deterministic.
+
+fn words_of(r: ffi::CResult) -> Option<Vec<u64>>
+{
+    let rr = raw(r);
+    let v = if rr.restype == 5 && !rr.data.is_null() { Some(unsafe { std::slice::from_raw_parts(rr.data as *const u64, rr.length) }.to_vec()) } else { None };
+    ffi::result_free(unraw(rr));
+    v
+}
+
+fn live_probes(out: &mut Out)
+{
+    // (name, number of parameters, controlled, sandwich target between Hadamards, decoy values, final values)
+    let z = 0.0f64;
+    let probes: Vec<(&str, usize, bool, bool, Vec<f64>, Vec<f64>)> = vec![
+        ("rx", 1, false, false, vec![z], vec![PI]), ("ry", 1, false, false, vec![z], vec![PI]),
+        ("rz", 1, false, true, vec![z], vec![PI]), ("u1", 1, false, true, vec![z], vec![PI]),
+        ("u2", 2, false, true, vec![z, z], vec![z, PI]), ("u2", 2, false, true, vec![PI, PI], vec![z, PI]),
+        ("u3", 3, false, false, vec![z, z, z], vec![PI, z, PI]), ("u3", 3, false, true, vec![z, z, z], vec![z, PI, z]),
+        ("u3", 3, false, true, vec![z, z, z], vec![z, z, PI]),
+        ("crx", 1, true, false, vec![z], vec![PI]), ("cry", 1, true, false, vec![z], vec![PI]), ("crz", 1, true, true, vec![z], vec![2.0 * PI]),
+    ];
+    for (name, k, controlled, sandwich, decoy, fin) in probes.iter()
+    {
+        for conditional in [false, true].iter()
+        {
+            for mask in 1u32..(1 << k)
+            {
+                let cells: Box<[f64; 3]> = Box::new([0.0; 3]);
+                let cp = Box::into_raw(cells);
+                let isref = |j: usize| (mask >> j) & 1 == 1;
+                // reference: direct parameters; referenced ones take `vals`
+                let reference = |vals: &[f64], reexec_vals: Option<&[f64]>| -> Option<Vec<u64>> {
+                    pcatch(|| {
+                        let build = |vals: &[f64]| {
+                            let mut c = Circuit::new(2, 2);
+                            let ps: Vec<Parameter> = (0..*k).map(|j| Parameter::Direct(if isref(j) { vals[j] } else { fin[j] })).collect();
+                            c.x(0).unwrap(); c.measure(0, 0).unwrap();
+                            if !*controlled { } // control qubit stays |1>, used only by the controlled rotations
+                            if *sandwich { c.h(1).unwrap(); }
+                            let qs: Vec<usize> = if *controlled { vec![0, 1] } else { vec![1] };
+                            let l = name.to_string();
+                            if *conditional { with_gate!(l.as_str(), ps, |g| c.add_conditional_gate(&[0], 1, g, &qs)).unwrap(); }
+                            else { with_gate!(l.as_str(), ps, |g| c.add_gate(g, &qs)).unwrap(); }
+                            if *sandwich { c.h(1).unwrap(); }
+                            c.measure(1, 1).unwrap();
+                            c
+                        };
+                        let mut c = build(vals);
+                        c.execute(64).unwrap();
+                        match reexec_vals
+                        {
+                            None => c.cstate().unwrap().to_vec(),
+                            Some(v2) => {
+                                // a re-execution with other values: the state after the first run is a basis state, so the
+                                // reference is a fresh run of "first circuit; second circuit" - here simply: prepare by X where set
+                                let first = c.cstate().unwrap().to_vec();
+                                let mut d = Circuit::new(2, 2);
+                                if first[0] & 1 == 1 { d.x(0).unwrap(); }
+                                if first[0] & 2 == 2 { d.x(1).unwrap(); }
+                                let ps: Vec<Parameter> = (0..*k).map(|j| Parameter::Direct(if isref(j) { v2[j] } else { fin[j] })).collect();
+                                d.x(0).unwrap(); d.measure(0, 0).unwrap();
+                                if *sandwich { d.h(1).unwrap(); }
+                                let qs: Vec<usize> = if *controlled { vec![0, 1] } else { vec![1] };
+                                let l = name.to_string();
+                                if *conditional { with_gate!(l.as_str(), ps, |g| d.add_conditional_gate(&[0], 1, g, &qs)).unwrap(); }
+                                else { with_gate!(l.as_str(), ps, |g| d.add_gate(g, &qs)).unwrap(); }
+                                if *sandwich { d.h(1).unwrap(); }
+                                d.measure(1, 1).unwrap();
+                                d.execute(64).unwrap();
+                                d.cstate().unwrap().to_vec()
+                            }
+                        }
+                    })
+                };
+                // the C interface, parameters by pointer where the mask says so
+                let c = ffi::circuit_new(2, 2);
+                let cname = |s: &str| std::ffi::CString::new(s).unwrap();
+                let q0 = [0usize]; let q1 = [1usize]; let q01 = [0usize, 1usize];
+                let ok = |r: ffi::CResult| { let rr = raw(r); let good = rr.restype != 0 || true; ffi::result_free(unraw(rr)); good };
+                ok(ffi::circuit_add_gate(c, cname("x").as_ptr(), q0.as_ptr(), 1, std::ptr::null(), 0));
+                ok(ffi::circuit_measure(c, 0, 0, 'z' as c_char, 1));
+                if *sandwich { ok(ffi::circuit_add_gate(c, cname("h").as_ptr(), q1.as_ptr(), 1, std::ptr::null(), 0)); }
+                let rp: Vec<RawParam> = (0..*k).map(|j| if isref(j) { RawParam { value: 0.0, value_ptr: unsafe { &(*cp)[j] as *const f64 } } }
+                    else { RawParam { value: fin[j], value_ptr: std::ptr::null() } }).collect();
+                let qs: &[usize] = if *controlled { &q01 } else { &q1 };
+                for j in 0..*k { unsafe { (*cp)[j] = decoy[j]; } }
+                let ctl = [0usize];
+                if *conditional { ok(ffi::circuit_add_conditional_gate(c, ctl.as_ptr(), 1, 1, cname(name).as_ptr(), qs.as_ptr(), qs.len(), cparams(&rp), rp.len())); }
+                else { ok(ffi::circuit_add_gate(c, cname(name).as_ptr(), qs.as_ptr(), qs.len(), cparams(&rp), rp.len())); }
+                if *sandwich { ok(ffi::circuit_add_gate(c, cname("h").as_ptr(), q1.as_ptr(), 1, std::ptr::null(), 0)); }
+                ok(ffi::circuit_measure(c, 1, 1, 'z' as c_char, 1));
+                // run 1: the doubles hold the decoys;  run 2: overwritten;  run 3: a re-execution after overwriting them back
+                ok(ffi::circuit_execute(c, 3));
+                let r1 = words_of(ffi::circuit_cstate(c));
+                for j in 0..*k { unsafe { (*cp)[j] = fin[j]; } }
+                ok(ffi::circuit_execute(c, 3));
+                let r2 = words_of(ffi::circuit_cstate(c));
+                for j in 0..*k { unsafe { (*cp)[j] = decoy[j]; } }
+                ok(ffi::circuit_reexecute(c));
+                let r3 = words_of(ffi::circuit_cstate(c));
+                ffi::circuit_free(c);
+                unsafe { drop(Box::from_raw(cp)); }
+                let (e1, e2, e3) = (reference(decoy, None), reference(fin, None), reference(fin, Some(decoy)));
+                // only deterministic probes count: all 64 reference shots equal (and, for the re-execution, the run before it)
+                let single = |w: &Option<Vec<u64>>| match w { Some(v) => v.iter().all(|x| *x == v[0]), None => false };
+                if !(single(&e1) && single(&e2) && single(&e3)) { continue; }
+                let cut = |w: Option<Vec<u64>>| w.map(|v| v[..3].to_vec());
+                let (e1, e2, e3) = (cut(e1), cut(e2), cut(e3));
+                let show = |w: &Option<Vec<u64>>| match w { Some(v) => v.iter().map(|x| x.to_string()).collect::<Vec<_>>().join(","), None => "none".into() };
+                let verdict = if r1 == e1 && r2 == e2 && r3 == e3 && r1.is_some() { "same".to_string() }
+                    else { format!("differs ffi={}/{}/{} reference={}/{}/{}", show(&r1), show(&r2), show(&r3), show(&e1), show(&e2), show(&e3)) };
+                out.case(&format!("live {} {} mask={} decoy={} final={}", name, if *conditional { "conditional" } else { "plain" }, mask,
+                    decoy.iter().map(|v| fbits(*v)).collect::<Vec<_>>().join(","), fin.iter().map(|v| fbits(*v)).collect::<Vec<_>>().join(",")), &verdict);
+            }
+        }
+    }
+}
+
 // ------------------------------------------------------------------------------------------------
 
 fn warm_up()
@@ -1038,6 +1162,7 @@ fn main()
                 out.case(&req, &c.ans.join(" ; "));
                 if EV_OVERFLOW.load(Ordering::Relaxed) { eprintln!("event log overflow in case {}", id); std::process::exit(3); }
             }
+            if first == 0 { LOGGING.store(false, Ordering::Relaxed); live_probes(&mut out); }
             let n = out.finish();
             prog.seek(SeekFrom::Start(0)).unwrap();
             write!(prog, "{:>12}\n", "done").unwrap();
